@@ -292,6 +292,37 @@ class Run(object):
                 stats.monitor_evals += 1
                 stats.count('refused_calls')
             return
+        if name == 'iter-touch':
+            # a loop over the cache whose body looks up / re-assigns the key it was just handed (no key is added or
+            # removed, as with a dict): every key is visited exactly once
+            seen = []
+            how = op[1]
+            try:
+                for k in c:
+                    seen.append(k)
+                    if len(seen) > len(Model.contents(st)) + 5:
+                        break
+                    if how == 'get':
+                        c[k]
+                    elif how == 'set':
+                        c[k] = ('touched', k)
+                    else:
+                        c.get(k)
+            except Exception as e:
+                self.fail('iteration[while-touching]', 'for k in cache: %s raised %r after %r' % (how, e, seen))
+            want_keys = sorted(Model.contents(st), key=skey)
+            if sorted(seen, key=skey) != want_keys:
+                self.fail('iteration[while-touching]', 'for k in cache: cache[k] (%s) visited %r, the cache holds %r'
+                          % (how, seen, want_keys))
+            cur = st
+            for k in seen:
+                mop = ('getitem', k) if how == 'get' else ('set', k, ('touched', k)) if how == 'set' else ('get', k, None)
+                cur = model.apply(cur, mop)[0][0]
+            self.st = cur
+            if stats is not None:
+                stats.monitor_evals += 1
+                stats.count('iterations_interleaved_with_lookups')
+            return
         if name in ('update', 'ior'):
             shape, pairs, kw = op[1], [tuple(p) for p in op[2]], [tuple(p) for p in (op[3] if len(op) > 3 else [])]
             arg, eff = self.build_arg(shape, pairs)
@@ -422,11 +453,13 @@ class Check(object):
             k = r.choice(pool)
             v = r.randint(0, 9)
             kind = r.choices(['set', 'getitem', 'get', 'setdefault', 'del', 'pop', 'popitem', 'clear',
-                              'update', 'ior', 'copy', 'update-fails', 'bad-key'],
-                             [22, 16, 10, 8, 6, 6, 3, 1, 8, 5, 5, 2, 2])[0]
+                              'update', 'ior', 'copy', 'update-fails', 'bad-key', 'iter-touch'],
+                             [22, 16, 10, 8, 6, 6, 3, 1, 8, 5, 5, 2, 2, 3])[0]
             if kind == 'update-fails':
                 ops.append(['update-fails', [r.choice(pool) for _ in range(r.randint(1, ms + 2 if ms < 100 else 5))],
                             r.randint(0, 4)])
+            elif kind == 'iter-touch':
+                ops.append(['iter-touch', r.choice(['get', 'set', 'soft-get'])])
             elif kind == 'bad-key':
                 ops.append(['bad-key', r.choice(['set', 'getitem', 'get', 'setdefault', 'del', 'contains', 'update'])])
             elif kind == 'set':
